@@ -30,13 +30,16 @@ import (
 //   shm-roundtrip   schema alphabet (plain + top-level / nested / mixed dictionaries)
 //                   x rows {0,1,5} x writer {MaybeWriteToShm, AllocateAndWrite + hand-made pointer}
 //                   x batch metadata x pointer transport {direct, through an IPC stream}
-//                   x placement {data origin, behind an odd-sized allocation};
+//                   x placement {data origin, behind an odd-sized allocation, region moved so
+//                   that it ends exactly at the segment end};
 //                   written through the creating mapping, resolved through a second
 //                   ShmAttach mapping.
 //   shm-column-orders  schemas composed column by column: every ordered sequence of 1..3
 //                   (thorough 1..4) columns over {int64, utf8, struct, dict<int8>, dict<int16>,
 //                   struct<dict>, list<dict>} x rows {0,1,5} x writer — every relative order
 //                   and mix of plain / top-level-dictionary / nested-dictionary columns.
+//   shm-exact-fit-segment  shapes x rows {5,3000} x slack {0,1}: a new segment whose data area is
+//                   exactly the serialized size (+slack); what AllocateAndWrite accepts must read back.
 //   shm-twin-sequence  two batches in a row on one segment whose schemas differ only in
 //                   field / schema / child metadata or list element name ("fingerprint
 //                   twins"), every ordered pair incl. the same schema twice (same and
@@ -324,6 +327,48 @@ func (p *vf35Pool) rewind(dirty int) {
 	for i := ShmHeaderSize; i < n; i++ {
 		p.seg.data[i] = 0
 	}
+	// the tail, where "flush-end" placements live
+	for i := len(p.seg.data) - dirty; i >= ShmHeaderSize && i < len(p.seg.data); i++ {
+		p.seg.data[i] = 0
+	}
+}
+
+// moveToEnd relocates the stored region (off,n) byte for byte so that its last
+// byte is the last byte of the segment, through the allocator (filler region +
+// first fit), and wipes the old place. A peer writer (Python / Rust / C++
+// allocators have no Go-side "estimate + 4096" pre-check) can legally end up
+// there; AllocateAndWrite itself only does for batches whose serialized size
+// exceeds its estimate (see the shm-exact-fit-segment space).
+func (p *vf35Pool) moveToEnd(off uint64, n int) (uint64, error) {
+	seg := p.seg
+	buf := append([]byte{}, seg.data[off:off+uint64(n)]...)
+	for i := off; i < off+uint64(n); i++ {
+		seg.data[i] = 0
+	}
+	if err := seg.FreeOffset(off); err != nil {
+		return 0, err
+	}
+	seg.mu.Lock()
+	defer seg.mu.Unlock()
+	// first free byte after whatever else is allocated (regions are packed from the origin)
+	start := uint64(ShmHeaderSize)
+	for _, e := range seg.readAllocs() {
+		if e[0]+e[1] > start {
+			start = e[0] + e[1]
+		}
+	}
+	filler := int(uint64(seg.size)-start) - n
+	if filler > 0 {
+		if _, ok := seg.allocateLocked(filler); !ok {
+			return 0, fmt.Errorf("filler of %d bytes refused", filler)
+		}
+	}
+	to, ok := seg.allocateLocked(n)
+	if !ok || to+uint64(n) != uint64(seg.size) {
+		return 0, fmt.Errorf("tail allocation landed at %d (ok=%v), want %d", to, ok, seg.size-n)
+	}
+	copy(seg.data[to:], buf)
+	return to, nil
 }
 
 func (p *vf35Pool) close() {
@@ -542,10 +587,15 @@ func TestVerif_C35(t *testing.T) {
 
 	// roundtrip writes one batch of the shape and reads it back (the oracle of
 	// the shm-roundtrip and shm-column-orders spaces).
-	roundtrip := func(x *venum.X, sh vf35Shape, rows int, writer string, meta []string, wire, pre bool) {
+	roundtrip := func(x *venum.X, sh vf35Shape, rows int, writer string, meta []string, wire bool, place string) {
 		execs++
 		pool.rewind(64 << 10)
 		seg, att := pool.seg, pool.att
+		pre := place == "behind-odd-allocation"
+		if place == "flush-end" {
+			// the signature names the placement class
+			sh.family += ":region-ends-at-segment-end"
+		}
 		if pre {
 			seg.mu.Lock()
 			seg.allocateLocked(13)
@@ -589,6 +639,29 @@ func TestVerif_C35(t *testing.T) {
 			ptr = vfEmpty(wantSchema, kv...)
 		}
 		written++
+		if place == "flush-end" {
+			// move the stored bytes so that the region's last byte is the
+			// segment's last byte, and point the pointer batch there
+			m := ptr.(arrow.RecordBatchWithMetadata).Metadata()
+			offS, _ := m.GetValue(MetaShmOffset)
+			lenS, _ := m.GetValue(MetaShmLength)
+			off0, _ := strconv.ParseUint(offS, 10, 64)
+			n0, _ := strconv.Atoi(lenS)
+			to, err := pool.moveToEnd(off0, n0)
+			if err != nil {
+				venum.EngineError("C35: cannot place the region at the segment end: %v", err)
+				return
+			}
+			var kv []string
+			for i, k := range m.Keys() {
+				v := m.Values()[i]
+				if k == MetaShmOffset {
+					v = strconv.FormatUint(to, 10)
+				}
+				kv = append(kv, k, v)
+			}
+			ptr = vfWithMeta(ptr, kv...)
+		}
 		if !IsShmPointerBatch(ptr) || ptr.NumRows() != 0 {
 			x.Failf("C35:pointer:not-a-pointer-batch:"+writer, "rows=%d meta=%v", ptr.NumRows(), vf35MetaOf(ptr))
 			return
@@ -644,8 +717,8 @@ func TestVerif_C35(t *testing.T) {
 		writer := x.Pick("writer", "MaybeWriteToShm", "AllocateAndWrite")
 		meta := metas[x.Choose(len(metas), "meta")]
 		wire := x.Bool("pointer-through-ipc")
-		pre := x.Bool("behind-odd-allocation")
-		roundtrip(x, sh, rows, writer, meta, wire, pre)
+		place := x.Pick("placement", "origin", "behind-odd-allocation", "flush-end")
+		roundtrip(x, sh, rows, writer, meta, wire, place)
 	})
 
 	// Schemas composed column by column: every ordered sequence of 1..3 (thorough
@@ -665,7 +738,66 @@ func TestVerif_C35(t *testing.T) {
 		}
 		rows := rowsAlpha[x.Choose(len(rowsAlpha), "rows")]
 		writer := x.Pick("writer", "MaybeWriteToShm", "AllocateAndWrite")
-		roundtrip(x, vf35Compose(kinds, picked), rows, writer, nil, true, false)
+		place := x.Pick("placement", "origin", "flush-end")
+		roundtrip(x, vf35Compose(kinds, picked), rows, writer, nil, true, place)
+	})
+
+	// The same boundary through the public writer alone: a brand-new segment whose
+	// data area is EXACTLY the serialized size of the batch. AllocateAndWrite
+	// accepts that only when its size estimate is below the real size (nested and
+	// dictionary columns); then the region is [header, size) and must read back.
+	venum.Explore(t, venum.Cfg{Name: "shm-exact-fit-segment"}, func(x *venum.X) {
+		execs++
+		sh := shapes[x.Choose(len(shapes), "shape")]
+		// child buffers of nested columns are not in the writer's estimate: with
+		// thousands of rows the serialized size exceeds it and the write is accepted
+		rows := []int{5, 3000}[x.Choose(2, "rows")]
+		slack := x.Choose(2, "slack") // data area = serialized size + slack
+		pool.rewind(64 << 10)
+		batch := sh.batch(rows)
+		defer batch.Release()
+		_, n, ok, err := pool.seg.AllocateAndWrite(batch)
+		if err != nil || !ok {
+			venum.EngineError("C35: cannot measure %s: ok=%v err=%v", sh.name, ok, err)
+			return
+		}
+		seg, err := ShmCreate(ShmHeaderSize + n + slack)
+		if err != nil {
+			venum.EngineError("C35: ShmCreate: %v", err)
+			return
+		}
+		defer seg.Close()
+		off, n2, ok, err := seg.AllocateAndWrite(batch)
+		if err != nil {
+			x.Failf("C35:write:error:"+sh.family, "AllocateAndWrite(%s) into an exactly fitting segment: %v", sh.name, err)
+			return
+		}
+		if !ok {
+			x.Outcome("refused-by-size-estimate %s rows=%d", sh.name, rows)
+			return
+		}
+		written++
+		att, err := ShmAttach(seg.Name(), seg.Size(), false)
+		if err != nil {
+			venum.EngineError("C35: ShmAttach: %v", err)
+			return
+		}
+		defer att.Close()
+		ptr := vfEmpty(batch.Schema(), MetaShmOffset, strconv.FormatUint(off, 10), MetaShmLength, strconv.Itoa(n2))
+		fam := sh.family
+		if int(off)+n2 == seg.Size() {
+			fam += ":region-ends-at-segment-end"
+		}
+		res, _, _, rerr, pan := vf35Resolve(ptr, att)
+		switch {
+		case pan != nil:
+			x.Failf("C35:roundtrip:panic:"+fam, "%s: %v", sh.name, pan)
+		case rerr != nil:
+			x.Failf("C35:roundtrip:resolve-error:"+fam, "%s rows=%d written by AllocateAndWrite at %d+%d in a segment of %d bytes: %v", sh.name, rows, off, n2, seg.Size(), rerr)
+		case vf35JSON(res) != vf35JSON(batch) || vf35SchemaFull(res.Schema()) != vf35SchemaFull(batch.Schema()):
+			x.Failf("C35:roundtrip:values-differ:"+fam, "%s: wrote %s read %s", sh.name, vf35JSON(batch), vf35JSON(res))
+		}
+		x.Outcome("stored %s rows=%d end-gap=%d err=%v", sh.name, rows, seg.Size()-int(off)-n2, rerr)
 	})
 	if execs > 0 && written == 0 && os.Getenv("VERIF_REPLAY") == "" {
 		venum.EngineError("C35: no batch was ever written to the segment")
@@ -775,6 +907,7 @@ func TestVerif_C35(t *testing.T) {
 		}
 		li := x.Choose(len(vf35PointerLabels), "length")
 		via := vias[x.Choose(len(vias), "via")]
+		place := x.Pick("placement", "origin", "flush-end")
 		pool.rewind(8 << 10)
 		seg, att := pool.seg, pool.att
 		vfResetEvents()
@@ -794,12 +927,24 @@ func TestVerif_C35(t *testing.T) {
 			venum.EngineError("C35: cannot store the reference batch: ok=%v err=%v", ok, err)
 			return
 		}
+		if place == "flush-end" {
+			// the stored region's last byte is the segment's last byte
+			to, merr := pool.moveToEnd(trueOff, trueLen)
+			if merr != nil {
+				venum.EngineError("C35: cannot place the reference batch at the segment end: %v", merr)
+				return
+			}
+			trueOff = to
+		}
 		strs := vf35PointerStrings(size, trueLen)
 		offS, lenS := strs[oi], strs[li]
 		if oi == len(strs)-1 {
 			offS = strconv.FormatUint(trueOff, 10) // "true-len" slot on the offset axis = the true offset
 		}
 		want, class := vf35Verdict(offS, lenS, size, trueOff, trueLen)
+		if place == "flush-end" && class == "stored-region" {
+			class = "stored-region-at-segment-end"
+		}
 		ptr := vfEmpty(stored.Schema(), MetaShmOffset, offS, MetaShmLength, lenS)
 		x.Note("pointer offset=%q length=%q stored=(%d,%d) size=%d => statement demands %s (%s)", offS, lenS, trueOff, trueLen, size, want, class)
 		sig := func(what string) string { return "C35:bad-pointer:" + via + ":" + class + ":" + what }
@@ -810,7 +955,7 @@ func TestVerif_C35(t *testing.T) {
 			// execution. These six pairs (nothing but "no panic" is demanded of
 			// them) run in the thorough tier only, through two of the four paths.
 			if lc := vf35Classify(lenS); lc.class == "plus-sign" || (lc.class == "number" && lc.v.Cmp(big.NewInt(4)) >= 0) {
-				if !venum.Thorough() || via == "resolve-dict" || via == "serve-exchange-input" {
+				if !venum.Thorough() || via == "resolve-dict" || via == "serve-exchange-input" || place == "flush-end" {
 					x.Outcome("not-run:offset-0-magic-read-as-1.4GB-message-length")
 					return
 				}
